@@ -780,8 +780,13 @@ def scenarios_for(rng: random.Random, R: dict, layout: dict, tier: str) -> list:
             if 0 < j < ln:
                 sc.append({"kind": "torn", "event": k, "bytes": j})
     # truncation
-    if tier == "thorough":
+    EVERY_BYTE_LIMIT = 12000  # thorough: every byte of files up to this size; larger archives (uncompressed, many members) are
+    # swept with the smallest stride that keeps the sweep at that many offsets, plus every member / header boundary
+    if tier == "thorough" and size <= EVERY_BYTE_LIMIT:
         cuts = range(0, size)
+    elif tier == "thorough":
+        stride = -(-size // EVERY_BYTE_LIMIT)
+        cuts = sorted(set(range(0, size, stride)) | set(layout["bounds"]) | {b + 1 for b in layout["bounds"] if b + 1 < size} | {size - 1})
     else:
         stride = max(1, size // 70)
         cuts = sorted(set(range(0, size, stride)) | set(layout["bounds"]) | {b + 1 for b in layout["bounds"] if b + 1 < size} | {size - 1})
@@ -789,7 +794,8 @@ def scenarios_for(rng: random.Random, R: dict, layout: dict, tier: str) -> list:
         sc.append({"kind": "trunc", "at": b})
     # single-byte corruption
     if tier == "thorough":
-        for b in range(size):
+        fstride = 1 if size <= EVERY_BYTE_LIMIT else -(-size // EVERY_BYTE_LIMIT)
+        for b in range(rng.randrange(fstride), size, fstride):
             sc.append({"kind": "flip", "at": b, "mask": rng.choice([0x01, 0x80, 0xFF, rng.randrange(1, 256)])})
     else:
         stride = max(1, size // 55)
@@ -805,6 +811,8 @@ def scenarios_for(rng: random.Random, R: dict, layout: dict, tier: str) -> list:
         struct_bytes.update(range(h0, h1))
     struct_bytes.update(range(layout["start_dir"], size))
     sb = sorted(b for b in struct_bytes if 0 <= b < size)
+    if tier == "thorough" and len(sb) > 4000:
+        smasks = [0x01, 0x08, 0x80, 0xFF]
     if tier == "quick" and len(sb) > 700:
         # keep it bounded: all of the central directory + end record, a seeded sample of the local headers
         cd = [b for b in sb if b >= layout["start_dir"]]
